@@ -307,15 +307,17 @@ def make_dict_structure_fn(
         globs["__c_a"] = allowed_fields
         globs["__c_feke"] = ForbiddenExtraKeysError
 
+    # Be careful about the input type so that the correct error is raised if the
+    # input isn't a mapping, instead of it being copied and returned.
+    internal_arg_parts["__c_mapping"] = Mapping
+    lines.append("  if not isinstance(o, __c_mapping):")
+    te = "TypeError(f'expected a mapping, not {o.__class__.__name__}')"
     if _cattrs_detailed_validation:
-        # When running under detailed validation, be extra careful about the
-        # input type so that the correct error is raised if the input isn't a dict.
-        internal_arg_parts["__c_mapping"] = Mapping
-        lines.append("  if not isinstance(o, __c_mapping):")
-        te = "TypeError(f'expected a mapping, not {o.__class__.__name__}')"
         lines.append(
             f"    raise __c_cve('While structuring ' + {cl.__name__!r}, [{te}], __cl)"
         )
+    else:
+        lines.append(f"    raise {te}")
 
     lines.append("  res = o.copy()")
 
